@@ -304,6 +304,16 @@ func ruleEntityActions(r *Run) {
 		iSet := idxOfCall(path, set, 0)
 		if iGet < 0 {
 			r.CheckT("H3", fn.Name+":no-store-without-lookup", iSet < 0, fn.Body.Pos(), path, "an action is stored only after the stored one was consulted")
+			// … and not refused on a count or size before it was consulted: whether a request replaces a stored
+			// action (which a newer one always may) is not known yet
+			for _, a := range r.answersOn(path) {
+				if a.Kind != "error" {
+					continue
+				}
+				reason := r.refusalReason(path, a.Idx)
+				r.CheckT("H3", fn.Name+":refused-before-lookup", !strings.HasPrefix(reason, "range:") && !strings.HasPrefix(reason, "size:"), path.Events[a.Idx].Pos, path,
+					"an entity action is refused on %s before the stored action for its (entity, name) was consulted: a request that would replace a stored action with a newer one is refused too, and newcomers keep being handed the old one", reason)
+			}
 			continue
 		}
 		gev := path.Events[iGet]
